@@ -71,6 +71,12 @@ def touches_pc(fn) -> bool:
     return any(isinstance(n, ast.Attribute) and n.attr == PC for n in ast.walk(fn))
 
 
+class DispatchUnread(AnalysisError):
+    """_execute_command dispatches in a form the shape rules do not read (a table walked by a loop, getattr by kind, ...).  What every
+    instruction does - that it is dispatched at all, and that the counter moves by one - is decided on executed programs by C04.D; the
+    rules that read the chain (C04.H, C04.PC, the executor entry of C08.J, the ret_reg / ret_arr signatures of C05.H) say so and step aside."""
+
+
 def handler_table(ctx) -> Dict[str, str]:
     """mnemonic -> handler method name, as _execute_command dispatches (for all registered core classes)"""
     repo, ev = ctx.repo, ctx.ev
@@ -111,7 +117,7 @@ def handler_table(ctx) -> Dict[str, str]:
         if isinstance(st, ast.If) and isinstance(st.test, ast.Compare) and A.norm(st.test) == f"{cmdp}.mnemonicinself._instruction_handlers":
             chain = st
     if chain is None:
-        raise AnalysisError("_execute_command: `command.mnemonic in self._instruction_handlers` dispatch not found")
+        raise DispatchUnread("_execute_command: `command.mnemonic in self._instruction_handlers` dispatch not found")
     arms = []  # (set of classes, handler name or None)
     # every call of a _handle_* method is one arm; the classes it serves are read from the facts that hold where it is called
     # (isinstance tests of the enclosing / preceding branches), whatever style the chain is written in
@@ -133,10 +139,10 @@ def handler_table(ctx) -> Dict[str, str]:
             else:
                 neg += 1
         if not pos_classes:
-            raise AnalysisError(f"_execute_command: the call of {c.func.attr} is not under an isinstance test of the command")
+            raise DispatchUnread(f"_execute_command: the call of {c.func.attr} is not under an isinstance test of the command")
         arms.append((pos_classes, c.func.attr))
     if not arms:
-        raise AnalysisError("_execute_command: isinstance dispatch chain not found")
+        raise DispatchUnread("_execute_command: isinstance dispatch chain not found")
     result = {}
     for c in I.core_instructions(repo):
         mn = I.field_default(repo, ev, c, "mnemonic")
@@ -1340,9 +1346,14 @@ def check_memory_primitives(ctx):
 
 
 def run(ctx):
-    table = handler_table(ctx)
-    check_dispatch(ctx, table)
-    check_pc(ctx, table)
+    try:
+        table = handler_table(ctx)
+    except DispatchUnread as ex_:
+        table = None
+        ctx.note(f"C04.H / C04.PC: {ex_} - the dispatch is written in a form these shape rules do not read; that every instruction is carried out and moves the counter by one is decided by C04.D")
+    if table is not None:
+        check_dispatch(ctx, table)
+        check_pc(ctx, table)
     # (what every classical instruction does to registers, arrays, the counter and the shared memory - operand roles, predicates,
     # arithmetic, the None guards - is decided by C04.D on executed programs; how the handlers are written is not read)
     check_memory_primitives(ctx)
